@@ -649,7 +649,7 @@ impl Check for C09 {
     }
     fn cases(&self, tier: Tier) -> u32 {
         match tier {
-            Tier::Quick => 2500,
+            Tier::Quick => 5000,
             Tier::Thorough => 80_000,
         }
     }
@@ -872,7 +872,7 @@ impl Check for C10 {
     }
     fn cases(&self, tier: Tier) -> u32 {
         match tier {
-            Tier::Quick => 1500,
+            Tier::Quick => 3000,
             Tier::Thorough => 40_000,
         }
     }
